@@ -161,7 +161,12 @@ def cubes_layers(tier, seed):
 
 # -- which file is the policy file -----------------------------------------------
 
-HOW = ['untouched', 'set_defaults', 'config-file', 'set_override']
+HOW = ['untouched', 'set_defaults', 'config-file', 'set_override',
+       # two mechanisms together: the operator's setting (config file or
+       # override) makes the option configured, whenever the service calls
+       # opts.set_defaults
+       'set_override-then-set_defaults', 'set_defaults-then-set_override',
+       'config-file-and-set_defaults', 'set_defaults-after-parse']
 VALUES = ['policy.yaml', 'other.yaml']
 
 
@@ -189,15 +194,20 @@ def run_choice(ctx, how, value):
         conf = cfg.ConfigOpts()
         opts._register(conf)
         args = ['--config-dir', env.dir]
-        if how == 'config-file':
+        if how in ('config-file', 'config-file-and-set_defaults'):
             with open(env.path('svc.conf'), 'w') as f:
                 f.write('[oslo_policy]\npolicy_file = %s\n' % value)
-        if how == 'set_defaults':
+        if how in ('set_defaults', 'set_defaults-then-set_override',
+                   'config-file-and-set_defaults'):
             opts.set_defaults(conf, policy_file=value)
         conf(args, project='verif', default_config_files=[],
              default_config_dirs=[])
-        if how == 'set_override':
+        if how in ('set_override', 'set_override-then-set_defaults',
+                   'set_defaults-then-set_override'):
             conf.set_override('policy_file', value, group='oslo_policy')
+        if how in ('set_override-then-set_defaults',
+                   'set_defaults-after-parse'):
+            opts.set_defaults(conf, policy_file=value)
         conf.set_override('policy_dirs', [], group='oslo_policy')
         enf = policy.Enforcer(conf, policy_file=ctor,
                               fallback_to_json_file=fallback)
@@ -212,7 +222,8 @@ def run_choice(ctx, how, value):
             chosen = ctor
         else:
             chosen = value
-            never_configured = how in ('untouched', 'set_defaults')
+            never_configured = how in ('untouched', 'set_defaults',
+                                       'set_defaults-after-parse')
             if (never_configured and value == 'policy.yaml' and fallback and
                     not yaml_exists and json_exists):
                 chosen = 'policy.json'
@@ -231,8 +242,12 @@ def run_choice(ctx, how, value):
                                 detail=dict(row, chosen=chosen,
                                             governing=governing))
     finally:
-        if how == 'set_defaults':
+        if 'set_defaults' in how:
             cfg.set_defaults(opts._options, policy_file='policy.yaml')
+            try:
+                conf.clear_default('policy_file', group='oslo_policy')
+            except Exception:
+                pass
         env.close()
 
 
